@@ -38,6 +38,7 @@ func FromStream(stream *glyphdata.Stream) (*type1.Font, error) {
 	}
 
 	r, w := io.Pipe()
+	defer r.Close() // unblocks the writer goroutine if parsing stops early
 	var t1Font *type1.Font
 	var parseErr error
 
